@@ -213,6 +213,19 @@ type Outcome struct {
 }
 
 // Merge folds a finished Check into the outcome, applying known findings.
+// Failing counts the obligations that fail or are undecided and are not listed as known findings.
+func (c *Check) Failing(known map[string]KnownFinding) int {
+	n := 0
+	for _, ob := range c.Obs {
+		if ob.Verdict == Violation || ob.Verdict == Undecided {
+			if _, ok := known[ob.Key()]; !ok {
+				n++
+			}
+		}
+	}
+	return n
+}
+
 func (o *Outcome) Merge(c *Check, known map[string]KnownFinding) {
 	seenF := map[string]bool{}
 	for _, f := range o.Funcs {
